@@ -152,7 +152,8 @@ pub fn gen_source_named(rng: &mut Rng, index: usize, name: &str) -> Gen {
             2 => { shape.push("zero-of");
                 let set = *rng.pick(&["them", "($a, $b)", "($a*)", "($a, $b, $c)"]);
                 let tail = *rng.pick(&["", "", " in (0..10)"]);
-                let e = format!("0 of {}{}", set, tail);
+                let q = if !clean() && rng.chance(1, 6) { shape.push("parenthesised-quantifier"); *rng.pick(&["(0)", "( 0 )", "((0))"]) } else { "0" };
+                let e = format!("{} of {}{}", q, set, tail);
                 conds.push(context(rng, e, &mut shape)); }
             3 => { shape.push("duplicate-import");
                 match rng.below(4) { 0 => imports.push_str("import \"pe\"\n"), 1 => imports.push_str("import \"math\" import \"pe\"\n"),
@@ -206,6 +207,8 @@ fn corpus() -> Vec<Gen> {
         g("import \"pe\"\nrule t {\n  condition:\n    pe.is_dll() == 0\n}\n", vec!["bool-int", "function-call"]),
         g("import \"pe\"\nrule t {\n  condition:\n    0 == pe.is_dll()\n}\n", vec!["bool-int", "function-call", "const-on-left"]),
         g("import \"hash\"\nrule t {\n  condition:\n    hash.md5(0, filesize) == \"D41D8CD98F00B204E9800998ECF842\\\"E\"\n}\n", vec!["case-constraint"]),
+        // parenthesised quantifier: `(0) of them` -> `(none) of them`
+        g("rule t {\n  strings:\n    $a = \"abc\"\n    $b = \"zzz\"\n  condition:\n    (0) of them\n}\n", vec!["zero-of", "parenthesised-quantifier"]),
         // parenthesised operands: the span of the comparison starts inside the parentheses
         g("import \"pe\"\nrule t {\n  condition:\n    (pe.is_pe) == 1\n}\n", vec!["bool-int", "parenthesised-operand"]),
         g("import \"pe\"\nrule t {\n  condition:\n    1 == ((pe.is_pe))\n}\n", vec!["bool-int", "parenthesised-operand", "const-on-left"]),
@@ -307,7 +310,10 @@ fn patch_detail(src: &[u8], p: &P) -> &'static str {
             else if unbalanced { "parenthesised-operand-span-covers-one-parenthesis" } else { "other" }
         }
         "unsatisfiable_expr" => if src[p.start..p.end].contains(&b'\\') { "constant-with-escape-sequence-requoted-unescaped" } else { "other" },
-        "ambiguous_expr" => "zero-of-rewritten-to-none",
+        "ambiguous_expr" => {
+            let before = src[..p.start].iter().rev().find(|c| !c.is_ascii_whitespace());
+            if before == Some(&b'(') { "parenthesised-quantifier" } else { "zero-of-rewritten-to-none" }
+        }
         _ => "any",
     }
 }
@@ -516,7 +522,7 @@ pub fn run(args: &[String]) -> i32 {
         if c.patches.len() >= 1 { distinct.insert(g.src.clone()); }
         // the real tool on a temporary copy: directed at the interesting cases first
         let mut yr_res: Option<(bool, Vec<u8>)> = None;
-        if let Some(y) = &yr { if yr_done < n_yr && (class != "none" || c.patches.len() >= 2 || rng.chance(1, 3) || index <= 13) {
+        if let Some(y) = &yr { if yr_done < n_yr && (class != "none" || c.patches.len() >= 2 || rng.chance(1, 3) || index <= 16) {
             yr_res = run_yr(y, &tmp, src); if yr_res.is_some() { yr_done += 1; stats.inc("yr_runs"); if !yr_res.as_ref().unwrap().0 { stats.inc("yr_failed_exit"); } }
         } }
         let tb: Vec<usize> = token_boundaries(src).into_iter().collect();
